@@ -581,6 +581,133 @@ example :
                           .ranTest (pkgDot ++ ['t', 'e', 's', 't', '#', 'a'])]) := by
   decide
 
+/-- The `else` branches of the GENERATED `cli_inner` (covered by no run: the `roto` binary's runtime
+    has no context): on a runtime that carries a context (`try_without_ctx` is `None`) `test` and
+    `run` refuse — the process fails and NOTHING happens before that: the file is not read, no
+    stage runs, no block, no entry (the log stays empty). -/
+theorem cli_ctx_runtime_refuses (dbg : Bool) (W : World) (hctx : W.hasCtx = true) (file : TR.Path)
+    (function : Name) :
+    (∃ code, cli dbg W ⟨.Test file⟩ W.runtime [] = (.ok code, []) ∧ code.failed = true) ∧
+    (∃ code, cli dbg W ⟨.Run file function⟩ W.runtime [] = (.ok code, []) ∧ code.failed = true) := by
+  obtain ⟨hc, r, p, t, tb⟩ := W
+  simp only at hctx
+  subst hctx
+  constructor <;> exact ⟨_, rfl, rfl⟩
+
+/-- non-vacuity: such a world exists, and on the same script a runtime WITHOUT context runs the block -/
+example :
+    let W : World := ⟨true, true, true, true, [(pkgDot ++ ['t', 'e', 's', 't', '#', 'a'], ⟨testSig, .Accept ()⟩)]⟩
+    (cli true W ⟨.Test ⟨⟩⟩ W.runtime []).2 = [] ∧
+    ((cli true { W with hasCtx := false } ⟨.Test ⟨⟩⟩ { W with hasCtx := false }.runtime []).2.filter isRanTest).length = 1 := by
+  decide
+
+/-! ## T4 on packages — the CLI end to end over discovery and look-up -/
+
+/-- T4 (`test`), end to end over the GENERATED `cli`, `run_tests`, `get_tests` and look-up key: the
+    script is a package (declared names are identifiers, the table holds its items under distinct
+    keys, plus any compiler-generated glue).  `roto test` exits with failure exactly when the
+    script does not compile or SOME test block of SOME module rejects; when it compiles, every
+    block of every module runs exactly once, in the sorted order of the keys; no entry is called. -/
+theorem cli_test_package (X : XID) (F : XIDFacts X) (mods : List Mod)
+    (hid : ∀ m ∈ mods, ∀ d ∈ m.decls, isIdent X d.name = true)
+    (glue : Table) (hglue : ∀ e ∈ glue, '#' ∉ e.1)
+    (dbg : Bool) (W : World) (hctx : W.hasCtx = false) (file : TR.Path)
+    (hperm : W.table.Perm (packageTable test_fn_name_mir test_sig_mir mods ++ glue))
+    (hnodup : (Table.keys W.table).Nodup)
+    (hsmall : (testKeys test_fn_name_mir mods).length < 2^31) :
+    ∃ code log, cli dbg W ⟨.Test file⟩ W.runtime [] = (.ok code, log) ∧
+      (code.failed = true ↔
+        (compileOk W = false ∨ ∃ m ∈ mods, ∃ n v, Decl.test n v ∈ m.decls ∧ v ≠ .Accept ())) ∧
+      log.filter isRanTest
+        = (if compileOk W then (RStr.sort (testKeys test_fn_name_mir mods)).map Event.ranTest else []) ∧
+      log.filter isEntryCall = [] := by
+  obtain ⟨cs, hget, hkeys, -⟩ := discovery_runs X F mods hid glue hglue dbg ⟨W.table⟩ hperm hnodup
+  have hlen : cs.length < 2^31 := by
+    have := congrArg List.length hkeys
+    rw [List.length_map, (sort_perm _).length_eq] at this
+    omega
+  obtain ⟨code, log, hrun, hiff, hran, hentry⟩ := cli_exit_test dbg W hctx file cs hget hlen
+  obtain ⟨r, hr, hiff1⟩ := run_tests_truthful (ε := Unit) dbg ⟨W.table⟩ cs hget hlen []
+  obtain ⟨r', hr', hiff2⟩ := run_package_truthful (ε := Unit) X F mods hid glue hglue dbg ⟨W.table⟩
+    hperm hnodup hsmall []
+  have hrr : r = r' := by
+    have := hr.symm.trans hr'
+    simp only [Prod.mk.injEq, Out.ok.injEq] at this
+    exact this.1
+  subst hrr
+  have hall : (∀ t ∈ cs, t.func.info.verdict = .Accept ()) ↔
+      (∀ m ∈ mods, ∀ n v, Decl.test n v ∈ m.decls → v = .Accept ()) := hiff1.symm.trans hiff2
+  have hev : cs.map evOf = (RStr.sort (testKeys test_fn_name_mir mods)).map Event.ranTest := by
+    rw [← hkeys, List.map_map]; rfl
+  refine ⟨code, log, hrun, hiff.trans ?_, by rw [hran, hev], hentry⟩
+  refine or_congr Iff.rfl ?_
+  rw [exists_not_iff_not_forall cs (fun t => t.func.info.verdict = .Accept ()), hall]
+  constructor
+  · intro h
+    exact Classical.byContradiction fun hc => h (fun m hm n v hd =>
+      Classical.byContradiction fun hv => hc ⟨m, hm, n, v, hd, hv⟩)
+  · rintro ⟨m, hm, n, v, hd, hv⟩ h
+    exact hv (h m hm n v hd)
+
+/-- T4 (`run`), end to end on a package: the entry `a.b.f` of `roto run` is the function `f` declared
+    in module `a.b` (whatever the modules are called).  On a script that compiles the process
+    fails exactly when that function is not a `fn()`, and otherwise calls THAT function — its own
+    table entry — exactly once; no test block runs. -/
+theorem cli_run_package (mods : List Mod) (glue : Table)
+    (dbg : Bool) (W : World) (hctx : W.hasCtx = false) (hc : compileOk W = true) (file : TR.Path)
+    (hperm : W.table.Perm (packageTable test_fn_name_mir test_sig_mir mods ++ glue))
+    (hnodup : (Table.keys W.table).Nodup)
+    (m : Mod) (hm : m ∈ mods) (f : Name) (info : FnInfo) (hd : Decl.fn f info ∈ m.decls) :
+    ∃ code log, cli dbg W ⟨.Run file (dotJoin (m.path ++ [f]))⟩ W.runtime [] = (.ok code, log) ∧
+      (code.failed = true ↔ info.sig ≠ entrySig) ∧
+      log.filter isEntryCall = (if info.sig = entrySig then [.calledEntry (fullName m.path f)] else []) ∧
+      log.filter isRanTest = [] := by
+  obtain ⟨code, log, hrun, hiff, hcall, hran⟩ := cli_exit_run dbg W hctx file (dotJoin (m.path ++ [f]))
+  have hmem : (fullName m.path f, info) ∈ W.table := by
+    apply hperm.symm.subset
+    apply List.mem_append_left
+    simp only [packageTable, List.mem_flatMap, moduleTable, List.mem_map]
+    exact ⟨m, hm, .fn f info, hd, rfl⟩
+  have hfind := find_of_mem_nodup W.table _ info hnodup hmem
+  rw [fullName_path] at hfind
+  have hfail : code.failed = true ↔ info.sig ≠ entrySig := by
+    rw [hiff, hc]
+    simp only [Bool.true_eq_false, false_or, entryMissing, entryMistyped, hfind]
+    constructor
+    · rintro (h | ⟨i, hi, hs⟩)
+      · cases h
+      · cases hi; exact hs
+    · intro hs; exact Or.inr ⟨info, rfl, hs⟩
+  refine ⟨code, log, hrun, hfail, ?_, hran⟩
+  rw [hcall, fullName_path]
+  by_cases hs : info.sig = entrySig
+  · have : code.failed = false := by
+      cases hcf : code.failed with
+      | false => rfl
+      | true => exact absurd hs (hfail.mp hcf)
+    simp [hs, this]
+  · have : code.failed = true := hfail.mpr hs
+    simp [hs, this]
+
+/-- non-vacuity of both: a two-module package with glue; `roto test` fails because the block of
+    module `m` rejects, both blocks ran in key order; `roto run … m.go` calls `pkg.m.go` once. -/
+example :
+    let a : Name := ['a']
+    let go : Name := ['g', 'o']
+    let eq14 : Name := [':', ':', 'g', 'e', 'n', 'e', 'r', 'a', 't', 'e', 'd', ':', ':', 'e', 'q', '_', '1', '4']
+    let glue : Table := [(eq14, ⟨⟨[.other 1, .other 1], .other 0⟩, .Accept ()⟩)]
+    let mods : List Mod := [⟨[], [.test a (.Accept ())]⟩, ⟨[['m']], [.fn go ⟨entrySig, .Accept ()⟩, .test a (.Reject ())]⟩]
+    let W : World := ⟨false, true, true, true, glue ++ (packageTable test_fn_name_mir test_sig_mir mods).reverse⟩
+    let failed (o : Out CliErr ExitCode) : Option Bool := match o with | .ok c => some c.failed | _ => none
+    (Table.keys W.table).Nodup ∧ compileOk W = true ∧
+    failed (cli true W ⟨.Test ⟨⟩⟩ W.runtime []).1 = some true ∧
+    (cli true W ⟨.Test ⟨⟩⟩ W.runtime []).2.filter isRanTest
+      = [.ranTest (pkgDot ++ ['m', '.', 't', 'e', 's', 't', '#', 'a']), .ranTest (pkgDot ++ ['t', 'e', 's', 't', '#', 'a'])] ∧
+    failed (cli true W ⟨.Run ⟨⟩ (dotJoin [['m'], go])⟩ W.runtime []).1 = some false ∧
+    (cli true W ⟨.Run ⟨⟩ (dotJoin [['m'], go])⟩ W.runtime []).2.filter isEntryCall
+      = [.calledEntry (fullName [['m']] go)] := by
+  decide
+
 /-- the type checker and the MIR lowerer agree on the name and signature of a test, and the
     runner asks for exactly that signature -/
 theorem test_item_agree (n : Name) :
